@@ -214,7 +214,16 @@ def _strategy(draw, tier='quick'):
     case['force_ortho'] = draw(st.sampled_from([False] * 5 + [True]))
     if draw(st.booleans()):
         sc = 1e3 * draw(gen.logfl(1e-2, 1e3))
-        case['N_cte'] = [sc * draw(gen.fl(-1., 1.)), sc * draw(gen.fl(-1., 1.)), sc * draw(gen.fl(-1., 1.))]
+        v = [sc * draw(gen.fl(-1., 1.)), sc * draw(gen.fl(-1., 1.)), sc * draw(gen.fl(-1., 1.))]
+        # a pre-load is as often one resultant alone (pure shear, uniaxial) or a cancelling pair as a generic triple
+        kind = draw(st.sampled_from(['triple', 'triple', 'xx', 'yy', 'xy', 'cancel']))
+        if kind in ('xx', 'yy', 'xy'):
+            k = ('xx', 'yy', 'xy').index(kind)
+            v = [(x if i == k else 0.) for i, x in enumerate(v)]
+            v[k] = v[k] or sc
+        elif kind == 'cancel':
+            v = [v[0] or sc, -(v[0] or sc), 0.]
+        case['N_cte'] = v
     else:
         case['N_cte'] = None
     return case
